@@ -91,6 +91,14 @@ LA0 = {"line_overlap": "1/2", "char_margin": "2", "line_margin": "1/2", "word_ma
        "boxes_flow": "1/2", "detect_vertical": False, "all_texts": False}
 
 
+def report(ctx: C.Ctx, f: C.Failure) -> None:
+    """At most five failures of one kind, so that every kind of failure of a run gets its replay."""
+    seen = ctx.extra.setdefault("_c09_kinds", {})
+    seen[f.what] = seen.get(f.what, 0) + 1
+    if seen[f.what] <= 5:
+        ctx.fail(f)
+
+
 def S(x) -> str:
     return L.fs(F(x))
 
@@ -161,6 +169,16 @@ def impl_neighbors(a, b, ratio, vertical: bool, bbox=BIG_PAGE) -> Tuple[bool, bo
 
 
 # --------------------------------------------------------------------------- threshold generators
+
+# translations applied to whole test arrangements: the documented predicates do not depend on where on the
+# plane the glyphs are - also not beyond 2^31 (a former integer sentinel of the layout containers)
+FAR = [(F(0), F(0))] * 6 + [(F(1 << 31), F(0)), (F(0), F(1 << 31)), (-F(1 << 31) - 512, -F(1 << 33)),
+                            (F(1 << 40), F(1 << 36)), (F(1 << 31) - 300, F(1 << 31) - 300), (F(-(1 << 31)) + 100, F(0))]
+
+
+def shift(box, off):
+    return (box[0] + off[0], box[1] + off[1], box[2] + off[0], box[3] + off[1])
+
 
 def pick_params(rng):
     lo = rng.choice([F(1, 2), F(1, 2), F(0), F(1, 4), F(3, 4), F(1), F(5, 4), F(-1, 4)])
@@ -256,6 +274,73 @@ def gen_neighbor_pair(rng, vertical: bool):
 
 # --------------------------------------------------------------------------- predicate checks
 
+def gen_word_run(rng, vertical: bool):
+    """2-4 glyphs of one line in ARBITRARY drawing order (a later glyph may lie left of an earlier one, a
+    word may be drawn to the left of a word drawn before): every gap to the PREVIOUS glyph sits on / around
+    the word_margin threshold."""
+    wm = rng.choice([F(1, 8), F(1, 8), F(1, 2), F(1), F(0), F(1, 16), F(-1, 4), F(2)])
+    n = rng.choice([2, 3, 3, 4])
+    h = rng.choice([F(8), F(10), F(12), F(16)])
+    boxes = []
+    x = F(100)
+    for i in range(n):
+        w = rng.choice([F(4), F(6), F(8), F(0), F(12)])
+        if i > 0:
+            prev = boxes[-1]
+            r = rng.random()
+            thr = wm * max(w, h)
+            if r < 0.55:      # forward, gap around the threshold
+                x = prev[1] + (thr + rng.choice(EPS) if rng.random() < 0.7 else rng.choice([F(0), F(1), F(3), F(-1)]))
+            elif r < 0.85:    # drawn to the LEFT of everything so far
+                x = min(b[0] for b in boxes) - w - rng.choice([F(0), F(1), abs(thr) + rng.choice(EPS), F(7)])
+            else:             # somewhere over the earlier glyphs
+                x = min(b[0] for b in boxes) + rng.choice([F(1), F(5), F(11)])
+        boxes.append((x, x + w))
+    y = F(200)
+    if vertical:     # the run goes DOWN: position p along the run becomes the interval [-p-w, -p] in y
+        return wm, [(F(100), -b[1] + 1000, F(100) + h, -b[0] + 1000) for b in boxes]
+    return wm, [(b[0], y, b[1], y + h) for b in boxes]
+
+
+def run_word_run(ctx: C.Ctx, rng, vertical: bool, ask) -> None:
+    from pdfminer.layout import LTAnno, LTChar, LTTextBox, LTTextLine, LTTextLineVertical
+    wm, boxes = gen_word_run(rng, vertical)
+    off = rng.choice(FAR)
+    boxes = [shift(b, off) for b in boxes]
+    la = dict(LA0, line_overlap="0", char_margin=str(1 << 45), word_margin=S(wm), detect_vertical=vertical)
+    case = {"bbox": list(BIG_PAGE), "la": la,
+            "items": [["c", i + 1] + [S(v) for v in b] + ["abcd"[i]] for i, b in enumerate(boxes)]}
+    page, err = L.run_impl(case)
+    if err is not None:
+        raise err
+    lines = [l for o in page for l in (o if isinstance(o, LTTextBox) else [o]) if isinstance(l, LTTextLine)]
+    if len(lines) != 1 or isinstance(lines[0], LTTextLineVertical) != vertical:
+        ctx.branch("pred:space:not-one-line")
+        return
+    got = []          # what precedes each glyph: [] or [" "]
+    pend = []
+    for e in lines[0]:
+        if isinstance(e, LTChar):
+            got.append(("c%d" % e._vid, list(pend)))
+            pend = []
+        elif isinstance(e, LTAnno):
+            pend.append(e.get_text())
+    if [g[0] for g in got] != ["c%d" % (i + 1) for i in range(len(boxes))] or pend != ["\n"]:
+        report(ctx, C.Failure("a line does not hold its glyphs in content order followed by one line break", case,
+                           "c1..cn then \\n", [g[0] for g in got] + pend, {"check": "word-run"}))
+        return
+    pattern = [g[1] for g in got]
+    ctx.case(("run", vertical, wm, tuple(boxes)), True, sample={"pred": "word run", "wm": S(wm), "boxes": [[S(v) for v in b] for b in boxes]},
+             branch="pred:word-run:%s:%d" % ("v" if vertical else "h", len(boxes)))
+    backwards = any((boxes[i][3] > boxes[i - 1][3]) if vertical else (boxes[i][0] < boxes[i - 1][0]) for i in range(1, len(boxes)))
+    if backwards:
+        ctx.branch("pred:word-run:backwards")
+    for i in range(1, len(boxes)):
+        last = boxes[i - 1][1] if vertical else boxes[i - 1][2]
+        ask("space_v" if vertical else "space_h", [wm, last] + list(boxes[i]), pattern[i] == [" "],
+            {"case": case, "wm": wm, "run": i, "leading": pattern[0], "anno": pattern[i]})
+
+
 def nested(a, b, vertical) -> bool:
     lo_a, hi_a, lo_b, hi_b = (a[0], a[2], b[0], b[2]) if vertical else (a[1], a[3], b[1], b[3])
     return (lo_a <= lo_b and hi_b <= hi_a) or (lo_b <= lo_a and hi_a <= hi_b)
@@ -279,6 +364,9 @@ def run_predicates(ctx: C.Ctx) -> None:
         try:
             if k == 0:
                 lo, cm, a, b = gen_join_pair(rng, vertical)
+                off = rng.choice(FAR)
+                a, b = shift(a, off), shift(b, off)
+                ctx.branch("pred:far" if off != (0, 0) else "pred:near")
                 la = dict(LA0, line_overlap=S(lo), char_margin=S(cm), word_margin="0", detect_vertical=vertical)
                 same_line, cls, _, _, case = impl_pair(a, b, la)
                 # with detect_vertical both predicates may hold; then the code keeps two lines: evaluate
@@ -299,17 +387,11 @@ def run_predicates(ctx: C.Ctx) -> None:
                     ask("halign", [lo, cm] + list(a) + list(b), joined, {"case": case, "a": a, "b": b, "lo": lo,
                                                                          "vertical": False})
             elif k == 1:
-                wm, a, b = gen_space_pair(rng, vertical)
-                la = dict(LA0, line_overlap="0", char_margin="100", word_margin=S(wm), detect_vertical=vertical)
-                same_line, cls, space, _, case = impl_pair(a, b, la)
-                if not same_line or cls != ("V" if vertical else "H"):
-                    ctx.branch("pred:space:not-joined")
-                    continue
-                ctx.case(("space", vertical, wm, a, b), True, branch="pred:space_%s:%d" % ("v" if vertical else "h", space))
-                last = a[1] if vertical else a[2]
-                ask("space_v" if vertical else "space_h", [wm, last] + list(b), space, {"case": case, "wm": wm})
+                run_word_run(ctx, rng, vertical, ask)
             else:
                 r, a, b = gen_neighbor_pair(rng, vertical)
+                off = rng.choice(FAR)
+                a, b = shift(a, off), shift(b, off)
                 pg = rng.choice(PAGES)
                 ctx.branch("pred:page:" + ",".join(pg))
                 nb, self_nb = impl_neighbors(a, b, r, vertical, pg)
@@ -326,14 +408,14 @@ def run_predicates(ctx: C.Ctx) -> None:
                     same_line, _, _, same_box, case = impl_pair(a, b, la, texts=("a", "b"), bbox=pg)
                     ctx.branch("pred:same_box:%d" % same_box)
                     if not same_line and same_box != (nb or nb2):
-                        ctx.fail(C.Failure("two lines share a box although neither is a neighbour of the other (or vice versa)",
+                        report(ctx, C.Failure("two lines share a box although neither is a neighbour of the other (or vice versa)",
                                            case, nb or nb2, same_box, {"check": "box-vs-find_neighbors"}))
                     if not same_line and not vertical:
                         # ... and iff the DOCUMENTED relation holds in one of the two directions
                         ask("neighbor_h", [r] + list(a) + list(b), same_box, {"case": case, "either": True})
                         ask("neighbor_h", [r] + list(b) + list(a), None, {"skip": True})
         except Exception as e:  # noqa: BLE001
-            ctx.fail(C.Failure("layout analysis raised on a two-glyph page", {"i": i}, "no exception", repr(e),
+            report(ctx, C.Failure("layout analysis raised on a two-glyph page", {"i": i}, "no exception", repr(e),
                                {"check": "exception"}))
     if ctx.driver is None or not reqs:
         return
@@ -355,20 +437,103 @@ def run_predicates(ctx: C.Ctx) -> None:
             model_val = model_val or other[0] == "1"
             spec_val = spec_val or other[1] == "1"
             if spec_val != impl_val:
-                ctx.fail(C.Failure("two lines are (not) joined into one box against the documented neighbour relation",
+                report(ctx, C.Failure("two lines are (not) joined into one box against the documented neighbour relation",
                                    info["case"], spec_val, impl_val, {"check": "box-vs-neighbour"}))
             continue
         if model_val != impl_val:
             ctx.disagree("pred." + name, {k: str(v) for k, v in info.items() if k != "case"}, impl_val, model_val)
+        if info.get("run") is not None and (info["leading"] != [] or info["anno"] not in ([], [" "])):
+            report(ctx, C.Failure("annotations other than one word space between glyphs of a line", info["case"],
+                               "nothing before the first glyph, at most one space between glyphs",
+                               {"before_first": info["leading"], "before_glyph_%d" % (info["run"] + 1): info["anno"]},
+                               {"check": "word-run-annos"}))
+            continue
         if spec_val != impl_val:
             tags = {"check": "pred:" + name}
             if "lo" in info:
                 tags["nested"] = nested(info["a"], info["b"], info["vertical"])
                 tags["lo_ge_1"] = info["lo"] >= 1
-            ctx.fail(C.Failure("grouping differs from the documented %s predicate" % name,
+            report(ctx, C.Failure("grouping differs from the documented %s predicate" % name,
                                info.get("case") or {k: [S(x) for x in v] if isinstance(v, tuple) else
                                                     (v if isinstance(v, bool) else S(v)) for k, v in info.items()},
                                spec_val, impl_val, tags))
+
+
+# --------------------------------------------------------------------------- boxes = connected components
+
+def run_components(ctx: C.Ctx) -> None:
+    """"Lines are joined into a box exactly when connected by the documented neighbour relation": on whole
+    generated pages the partition of the text lines into boxes must be the connected components of the
+    documented relation (taken in either direction) among lines of the same class."""
+    from pdfminer.layout import LTChar, LTTextBox, LTTextLineVertical
+    if ctx.driver is None:
+        return
+    rng = ctx.rng
+    cases = []
+    for i in range(ctx.n(250, 3000)):
+        case = L.gen_case(rng, rng.choice([6, 12, 20]))
+        case["items"] = [it for it in case["items"] if it[0] != "f"]
+        cases.append(case)
+    check_components(ctx, cases)
+
+
+def check_components(ctx: C.Ctx, cases) -> None:
+    from pdfminer.layout import LTChar, LTTextBox, LTTextLineVertical
+    reqs: List[str] = []
+    meta: List[Any] = []
+    for case in cases:
+        if not ctx.time_left():
+            break
+        page, err = L.run_impl(case)
+        if err is not None:
+            report(ctx, C.Failure("layout analysis raised", case, "no exception", repr(err), {"check": "exception"}))
+            continue
+        lines, boxof = [], []
+        for bi, b in enumerate(o for o in page if isinstance(o, LTTextBox)):
+            for l in b:
+                lines.append(l)
+                boxof.append(bi)
+        if len(lines) < 2 or len(lines) > 24:
+            continue
+        r = F(case["la"]["line_margin"])
+        start = len(reqs)
+        pairs = []
+        for x in range(len(lines)):
+            for y in range(len(lines)):
+                vx, vy = isinstance(lines[x], LTTextLineVertical), isinstance(lines[y], LTTextLineVertical)
+                if x != y and vx == vy:
+                    reqs.append("pred %s %s" % ("neighbor_v" if vx else "neighbor_h",
+                                                " ".join(S(F(v)) for v in [r] + list(lines[x].bbox) + list(lines[y].bbox))))
+                    pairs.append((x, y))
+        ids = [[e._vid for e in l if isinstance(e, LTChar)] for l in lines]
+        meta.append((case, start, pairs, boxof, ids))
+        ctx.case(("components", json.dumps(case, sort_keys=True)), True, branch="components:lines:%s" % ("2-4" if len(lines) <= 4 else "5+"))
+    outs = ctx.driver.ask(reqs) if reqs else []
+    for case, start, pairs, boxof, ids in meta:
+        n = len(boxof)
+        parent = list(range(n))
+
+        def find(a):
+            while parent[a] != a:
+                parent[a] = parent[parent[a]]
+                a = parent[a]
+            return a
+        for k, (x, y) in enumerate(pairs):
+            if outs[start + k].split()[1] == "1":
+                parent[find(x)] = find(y)
+        comp = {}
+        for x in range(n):
+            comp.setdefault(find(x), []).append(x)
+        exp = sorted(sorted(ids[x][0] for x in c) for c in comp.values())
+        got_d = {}
+        for x in range(n):
+            got_d.setdefault(boxof[x], []).append(x)
+        got = sorted(sorted(ids[x][0] for x in c) for c in got_d.values())
+        if len(comp) < n:
+            ctx.branch("components:merged")
+        if exp != got:
+            report(ctx, C.Failure("the text boxes are not the connected components of the documented neighbour relation",
+                                  case, exp, got, {"check": "components"}))
 
 
 # --------------------------------------------------------------------------- column order
@@ -420,13 +585,13 @@ def run_columns(ctx: C.Ctx, batch) -> None:
         case, order, ncol = gen_columns(rng)
         page, err = L.run_impl(case)
         if err is not None:
-            ctx.fail(C.Failure("layout analysis raised", case, "no exception", repr(err), {"check": "exception"}))
+            report(ctx, C.Failure("layout analysis raised", case, "no exception", repr(err), {"check": "exception"}))
             continue
         got = [[e._vid for l in b for e in l if isinstance(e, LTChar)] for b in page if isinstance(b, LTTextBox)]
         ctx.case(("col", json.dumps(case, sort_keys=True)), True, branch="columns:%d" % ncol)
         batch.add(case, page)
         if got != order:
-            ctx.fail(C.Failure("boxes of a column layout do not come out in reading order (top to bottom, left column first)",
+            report(ctx, C.Failure("boxes of a column layout do not come out in reading order (top to bottom, left column first)",
                                case, order, got, {"check": "column-order", "ncol": ncol}))
 
 
@@ -502,6 +667,14 @@ def run_scale(ctx: C.Ctx, batch) -> None:
         # generated on a letter-size page, then shrunk by 8 so that the whole range of scales stays affordable
         case = L.scale_case(L.gen_case(rng, size), F(1, 8))
         ks = [-6, 6] + rng.sample([-5, -4, -3, -2, -1, 1, 2, 3, 4, 5], 2 if ctx.tier == "quick" else 10)
+        if i % 3 == 2:
+            # "all scale factors 2^k": large |k|.  The page box is made tiny (all glyphs lie beyond it and are
+            # filed under its border cells), so that the 50-unit grid stays small when coordinates reach 2^40;
+            # figures (containers with a box of their own) are left out for the same reason
+            case = dict(case, bbox=["0", "0", "1/1073741824", "1/1073741824"],
+                        items=[it for it in case["items"] if it[0] != "f"])
+            ks = [22, 31, 40, -22] if ctx.tier == "quick" else [20, 22, 25, 31, 32, 40, 48, -22, -40]
+            ctx.branch("gen:scale:far")
         ctx.case(("scale", json.dumps(case, sort_keys=True)), L.n_glyphs(case) >= 2,
                  sample={"la": case["la"], "n_items": len(case["items"]), "scales": ks}, branch="gen:scale")
         f = scale_check(ctx, case, batch, ks)
@@ -555,7 +728,7 @@ class TieOracle:
                     f2 = scale_check(ctx, c2, C8.Batch(ctx), [k])
                     if f2 is not None:
                         f = f2
-            ctx.fail(f)
+            report(ctx, f)
 
 
 # --------------------------------------------------------------------------- documents: extract_text
@@ -646,7 +819,7 @@ def run_documents(ctx: C.Ctx) -> None:
                 continue
             got = extract_text(io.BytesIO(data), laparams=L.make_laparams(la, "float"))
         except Exception as e:  # noqa: BLE001
-            ctx.fail(C.Failure("extract_text raised on a generated document", {"la": la, "pdf_hex": data.hex()[:4000]},
+            report(ctx, C.Failure("extract_text raised on a generated document", {"la": la, "pdf_hex": data.hex()[:4000]},
                                "text", repr(e), {"check": "exception"}))
             continue
         ctx.case(("doc", data), len(items) >= 2, branch="doc:extract_text")
@@ -710,6 +883,21 @@ def run_corpus(ctx: C.Ctx, batch) -> None:
         replay(ctx, doc, batch)
 
 
+def _anno_groups(elems):
+    """The runs of annotations that follow each glyph of a line (last run = after the last glyph)."""
+    from pdfminer.layout import LTChar
+    groups, cur, seen_char = [], [], False
+    for e in elems:
+        if isinstance(e, LTChar):
+            if seen_char:
+                groups.append(cur)
+            cur, seen_char = [], True
+        else:
+            cur.append(e)
+    groups.append(cur)
+    return groups
+
+
 def replay_pred(ctx: C.Ctx, name: str, inp, tags) -> None:
     """Re-evaluate one predicate case (implementation vs documented predicate) from a replay file."""
     if ctx.driver is None:
@@ -735,12 +923,29 @@ def replay_pred(ctx: C.Ctx, name: str, inp, tags) -> None:
                 exp = exp and not spec_of("pred halign " + args)
             got = same_line and cls == ("V" if name == "valign" else "H")
         else:
+            # a word run: re-evaluate every gap of the stored line
+            from pdfminer.layout import LTAnno, LTChar, LTTextBox, LTTextLine
             vertical = name.endswith("_v")
-            last = a[1] if vertical else a[2]
-            exp = spec_of("pred %s %s" % (name, " ".join(S(x) for x in [F(la["word_margin"]), last] + list(b))))
-            got = space
+            boxes = [tuple(F(v) for v in it[2:6]) for it in inp["items"]]
+            page, err = L.run_impl(inp)
+            if err is not None:
+                raise err
+            lines = [l for o in page for l in (o if isinstance(o, LTTextBox) else [o]) if isinstance(l, LTTextLine)]
+            exp, got = [], []
+            if len(lines) == 1:
+                pend = []
+                for e in lines[0]:
+                    if isinstance(e, LTChar):
+                        got.append(pend == [" "])
+                        pend = []
+                    elif isinstance(e, LTAnno):
+                        pend.append(e.get_text())
+                got = got[1:]
+                for i in range(1, len(boxes)):
+                    last = boxes[i - 1][1] if vertical else boxes[i - 1][2]
+                    exp.append(spec_of("pred %s %s" % (name, " ".join(S(x) for x in [F(la["word_margin"]), last] + list(boxes[i])))))
     if exp != got:
-        ctx.fail(C.Failure("grouping differs from the documented %s predicate" % name, inp, exp, got, tags))
+        report(ctx, C.Failure("grouping differs from the documented %s predicate" % name, inp, exp, got, tags))
 
 
 def replay(ctx: C.Ctx, doc, batch=None) -> None:
@@ -749,12 +954,29 @@ def replay(ctx: C.Ctx, doc, batch=None) -> None:
     inp = doc.get("input", {})
     tags = doc.get("tags", {}) or {}
     check = str(tags.get("check", ""))
-    if isinstance(inp, dict) and check.startswith("pred:"):
+    if isinstance(inp, dict) and check in ("word-run-annos", "word-run") and "items" in inp:
+        from pdfminer.layout import LTAnno, LTChar, LTTextBox, LTTextLine
+        ctx.case(("replay", json.dumps(inp, sort_keys=True)), True, branch="replay:word-run")
+        page, err = L.run_impl(inp)
+        if err is not None:
+            report(ctx, C.Failure("layout analysis raised", inp, "no exception", repr(err), {"check": "exception"}))
+        else:
+            for l in [l for o in page for l in (o if isinstance(o, LTTextBox) else [o]) if isinstance(l, LTTextLine)]:
+                el = list(l)
+                annos = ["".join(e.get_text() for e in grp) for grp in _anno_groups(el)]
+                if (el and isinstance(el[0], LTAnno)) or any(a not in ("", " ") for a in annos[:-1]) or annos[-1:] != ["\n"]:
+                    report(ctx, C.Failure("annotations other than one word space between glyphs of a line", inp,
+                                          "nothing before the first glyph, at most one space between glyphs",
+                                          [L.dump_elem(e) for e in el], tags))
+    elif isinstance(inp, dict) and check.startswith("pred:"):
         ctx.case(("replay", json.dumps(inp, sort_keys=True, default=str)), True, branch="replay:pred")
         replay_pred(ctx, check[5:], inp, tags)
     elif isinstance(inp, dict) and "items" in inp:
         ctx.case(("replay", json.dumps(inp, sort_keys=True)), True, branch="replay")
-        if check == "box-vs-neighbour" and ctx.driver is not None and len(inp["items"]) == 2:
+        if check == "components":
+            ctx.branch("replay:components")
+            check_components(ctx, [inp])
+        elif check == "box-vs-neighbour" and ctx.driver is not None and len(inp["items"]) == 2:
             a = tuple(F(v) for v in inp["items"][0][2:6])
             b = tuple(F(v) for v in inp["items"][1][2:6])
             r = F(inp["la"]["line_margin"])
@@ -763,24 +985,30 @@ def replay(ctx: C.Ctx, doc, batch=None) -> None:
                                 "pred neighbor_h " + " ".join(S(x) for x in [r] + list(b) + list(a))])
             spec = o[0].split()[1] == "1" or o[1].split()[1] == "1"
             if not same_line and spec != same_box:
-                ctx.fail(C.Failure("two lines are (not) joined into one box against the documented neighbour relation",
+                report(ctx, C.Failure("two lines are (not) joined into one box against the documented neighbour relation",
                                    inp, spec, same_box, tags))
         elif check == "column-order":
             page, err = L.run_impl(inp)
             if err is not None:
-                ctx.fail(C.Failure("layout analysis raised", inp, "no exception", repr(err), {"check": "exception"}))
+                report(ctx, C.Failure("layout analysis raised", inp, "no exception", repr(err), {"check": "exception"}))
             else:
                 from pdfminer.layout import LTChar, LTTextBox
                 got = [[e._vid for l in b for e in l if isinstance(e, LTChar)] for b in page if isinstance(b, LTTextBox)]
                 if doc.get("expected") is not None and got != doc["expected"]:
-                    ctx.fail(C.Failure("boxes of a column layout do not come out in reading order (top to bottom, left column first)",
+                    report(ctx, C.Failure("boxes of a column layout do not come out in reading order (top to bottom, left column first)",
                                        inp, doc["expected"], got, tags))
         else:
-            f = scale_check(ctx, inp, batch, list(range(-6, 7)))
+            ks = list(range(-6, 7)) if grid_cells(inp) < 5 else [-6, -3, -1, 1, 3, 6]
+            if isinstance(tags.get("k"), int) and tags["k"] not in ks:
+                ks.append(tags["k"])          # e.g. a far scale 2^31 of a page with a tiny box
+            if grid_cells(inp) < 5:
+                ks += [22, 31, 40]
+            f = scale_check(ctx, inp, batch, ks)
             if f is not None:
-                ctx.fail(f)
+                report(ctx, f)
     if own:
         batch.flush()
+        ctx.extra.pop("_c09_kinds", None)
 
 
 def run(ctx: C.Ctx) -> None:
@@ -789,6 +1017,10 @@ def run(ctx: C.Ctx) -> None:
     run_defaults(ctx)
     run_predicates(ctx)
     run_columns(ctx, batch)
+    run_components(ctx)
     run_documents(ctx)
     run_scale(ctx, batch)
     batch.flush()
+    kinds = ctx.extra.pop("_c09_kinds", None)
+    if kinds:
+        ctx.extra["failure_kinds"] = kinds
